@@ -256,7 +256,9 @@ def _active_predicate_form(f):
                 x.test.func.attr == "startswith" and x.test.args and const_str(x.test.args[0]) == "#" and \
                 isinstance(x.body, ast.Subscript) and norm(x.body.slice) == "1:":
             strip = "strip#"
-    for x in own_nodes(f.node):
+    from sa.util import expand_names as _en
+    for x0 in own_nodes(f.node):
+        x = _en(f, x0) if isinstance(x0, ast.BoolOp) else x0
         if isinstance(x, ast.BoolOp) and isinstance(x.op, ast.Or) and len(x.values) == 2:
             a, b = x.values
             cp = compare_parts(a)
